@@ -572,3 +572,67 @@ def check_wfn_primitive_lists(ctx, rid):
         ctx.violate(rid, f"WFN primitive lists written for (centre, l, exponent) {prims} are regrouped by the reader as {back} with row permutation {[int(v) for v in np.asarray(perm).ravel()]}", do, frag[0], construct="wfn primitive lists: regrouped differently")
     else:
         ctx.ok(rid, f"wfn: centre / type / exponent lists of {len(prims)} model primitives carry the format's numbering and are regrouped by build_obasis into the same primitives, rows in place", f"{do.module.relpath}:{frag[0].lineno}")
+
+
+def check_molden_centers(ctx, rid):
+    """Molden `[GTO]` section: the statements of dump_one from the `[GTO]` header up to the orbital part are interpreted on
+    abstract bases (atoms without functions first / in the middle / last, several shells per atom, shells not grouped by
+    atom) into a model file, and the reader's `_load_helper_obasis` on the printed lines.  The atom number that heads a
+    block is what attaches its shells to a nucleus: every shell must come back on the atom it was written for (the
+    writer lists the atoms in ascending order; the order of shells within an atom is kept)."""
+    prog = ctx.prog
+    do = prog.format_op("molden", "dump_one")
+    rd = prog.funcs.get("iodata.formats.molden._load_helper_obasis")
+    cc = prog.func("iodata.convert.convert_conventions")
+    if rd is None:
+        raise AnalysisError("molden._load_helper_obasis not found")
+    shell_cls = prog.cls("iodata.basis.Shell")
+    basis_cls = prog.cls("iodata.basis.MolecularBasis")
+    iocls = prog.cls("iodata.iodata.IOData")
+    licls = prog.cls("iodata.utils.LineIterator")
+    body = do.body
+    i0 = next((i for i, st in enumerate(body) if isinstance(st, ast.Expr) and isinstance(st.value, ast.Call) and any(isinstance(a, ast.Constant) and isinstance(a.value, str) and a.value.strip() == "[GTO]" for a in st.value.args)), None)
+    i1 = next((i for i, st in enumerate(body) if isinstance(st, ast.Assign) and isinstance(st.value, ast.Call) and any(cs.node is st.value and cc in cs.callees for cs in do.calls)), None)
+    bvar = next((st.targets[0].id for st in body if isinstance(st, ast.Assign) and len(st.targets) == 1 and isinstance(st.targets[0], ast.Name) and isinstance(st.value, ast.Attribute) and st.value.attr == "obasis"), None)
+    if i0 is None or i1 is None or i1 <= i0:
+        raise AnalysisError("molden.dump_one: the [GTO] part (from the header to the convert_conventions call) was not found")
+    frag = body[i0:i1]
+    cases = dict(CASES)
+    cases["shells not grouped by atom"] = [1, 0, 1, 2, 0]
+    bad = None
+    for label, centers in cases.items():
+        shells = []
+        for n_, ic in enumerate(centers):
+            l = n_ % 3
+            nprim = 1 + n_ % 2
+            shells.append(Rec(shell_cls, icenter=ic, angmoms=np.array([l]), kinds=["c"], exponents=np.array([1.5 + n_ + p_ for p_ in range(nprim)]), coeffs=np.array([[0.5 + 0.25 * p_] for p_ in range(nprim)])))
+        basis = Rec(basis_cls, shells=shells, conventions={}, primitive_normalization="L2")
+        data = Rec(iocls, obasis=basis, mo=None)
+        sink = TextSink()
+        local = {do.posparams[0]: sink, do.posparams[1]: data}
+        if bvar is not None:
+            local[bvar] = basis
+        try:
+            ev = AccessorEval(prog, iocls, limit=8000)
+            ev.module = do.module
+            ev._block(frag, local)
+            lines = [ln + "\n" for ln in sink.text.split("\n")]
+            if not lines or lines[0].strip() != "[GTO]":
+                bad = f"{label}: the section does not start with [GTO]"
+                break
+            lit = Rec(licls, filename="FILE", fh=iter(lines[1:] + ["[MO]\n"]), lineno=0, stack=[])
+            back = AccessorEval(prog, licls, limit=8000).run_free(rd, [lit], {})
+        except Raised as exc:
+            bad = f"{label} (centres {centers}): raises {exc.args[0]}"
+            break
+        except NotSymbolic as exc:
+            raise AnalysisError(f"Molden [GTO] writer / reader are outside the evaluation whitelist: {exc}") from exc
+        got = [(int(s_.fields["icenter"]), int(np.asarray(s_.fields["angmoms"])[0]), len(np.asarray(s_.fields["exponents"]))) for s_ in back.fields["shells"]]
+        want = sorted([(int(s_.fields["icenter"]), int(s_.fields["angmoms"][0]), len(s_.fields["exponents"])) for s_ in shells], key=lambda t: t[0])
+        if got != want:
+            bad = f"{label}: shells written for atoms {[w[0] for w in want]} are read back on atoms {[g[0] for g in got]}" + ("" if [g[1:] for g in got] == [w[1:] for w in want] else f" (shell types / primitive counts {[g[1:] for g in got]} instead of {[w[1:] for w in want]})")
+            break
+    if bad:
+        ctx.violate(rid, f"Molden [GTO] section, {bad}: the atom number heading a block is what attaches its shells to a nucleus", do, frag[0], construct=f"molden GTO centres: {bad}"[:180])
+    else:
+        ctx.ok(rid, f"Molden [GTO] section: on {len(cases)} abstract bases (atoms without functions, shells not grouped by atom) every shell comes back on the atom it was written for", f"{do.module.relpath}:{frag[0].lineno}")
